@@ -50,6 +50,9 @@ chk("C05","Bounded exhaustive exploration of escaping: every word of <=3/4 token
 chk("C06","Bounded exhaustive exploration of the JSON codec: encode side - every Map template up to a node bound plus three structures for every word of <=3 tokens over an alphabet with <, >, &, backslash, quote, the literal six-character \\u003c/\\u003e/\\u0026 texts, control characters, U+2028 - through Json, JsonIndent (3 indent pairs), Copy, j2x.MapToJson in default and safe encoding (valid JSON, lossless, literal/escaped policy, byte-identical to encoding/json in safe mode, results retained and re-checked after later calls); decode side - every byte string of <=5/6 tokens over a 13-token JSON alphabet with JsonUseNumber off/on against encoding/json's Decoder.",
     TB+"Reference: encoding/json. Bounds as stated; ambiguity set: top-level null; array followed by trailing bytes.",
     "explicit enumeration of inputs on the implementation; differential oracle against encoding/json; retained-result oracle over call histories of length 2-5")
+chk("C14","Bounded exhaustive exploration of casting: ten document templates placing a leaf spelling in element, attribute, text-key, text-before/after-child, list, root and sibling positions x ~190 spellings (64-bit boundary integers, decimal/exponent/hex floats, overflow, every case variant and signed spelling of nan/inf/infinity, ParseBool-accepted and near-miss booleans, text) x all 16 cast-option combinations x skip function {none, element, attribute, text key} x simple-as-map x {Map, MapSeq} decoders; oracle: structure/keys equal to the uncast decode, uncast leaves are strings, each cast leaf equals the documented cast of its text, Json() succeeds unless CastNanInf is on, x2j-wrapper.DocToJson agrees.",
+    TB+"Reference: refCast in mc/harness/ref_xml.go (strconv as parser). Ambiguity: skip-function key for text preceding children.",
+    "explicit enumeration of (template, spelling, configuration, decoder) on the implementation; differential cast/uncast oracle + reference cast")
 ALL=["C%02d"%i for i in range(1,21)]
 na=[{"property_id":p,"reason":"check not built yet in this round (planned: see DESIGN.md section 6); will be claimed once its harness is committed"} for p in ALL if p not in C]
 m={"version":1,
